@@ -4,6 +4,7 @@
    Generator (CompletionGen.cfg): a cursor context is
        pre  the character class immediately left of the identifier run
        run  the number of identifier characters between it and the cursor (0..3)
+       abc  the alphabet of those characters: ASCII letters, underscore and digits, non-ASCII letters
        fol  the character class right of the cursor
        ctx  the syntactic context
    TLC enumerates every combination; the driver instantiates those for which it has a
@@ -20,7 +21,8 @@ EXTENDS Naturals, Sequences, FiniteSets, TLC, Json
 Pres == {"bol", "space", "lparen", "lbracket", "lbrace", "comma", "equals", "plus", "colon", "dot", "semicolon", "star", "at", "minus", "not"}
 Fols == {"eol", "space", "ident", "rparen", "comma", "dot"}
 Ctxs == {"code", "call", "subscript", "dict", "slice", "annotation", "kwarg", "string", "comment", "attrstore", "import", "fromimport", "fstring"}
-Contexts == [pre : Pres, run : 0..3, fol : Fols, ctx : Ctxs]
+Abcs == {"ascii", "under9", "nonascii"}
+Contexts == [pre : Pres, run : 0..3, abc : Abcs, fol : Fols, ctx : Ctxs]
 
 VARIABLE cx
 GenInit == cx \in Contexts
